@@ -4,11 +4,11 @@ set -euo pipefail
 HERE=$(cd "$(dirname "$0")/.." && pwd)
 cd "$HERE"
 bin/mkcoqproject.sh
-timeout 7200 make -C coq -j16
+timeout 7200 make -C coq -k -j16 || echo "WARNING: some Coq files did not build (each check rebuilds its own targets)"
 mkdir -p .build .scratch
 bin/pbgen.sh "$HERE/.scratch/pb-setup"
 . bin/goenv.sh
 cp /repo/go.sum harness/go.sum
-(cd harness && go build -tags verif -overlay "$HERE/.scratch/pb-setup/overlay.json" -o "$HERE/.build/" ./cmd/... ) 
+(cd harness && go build -tags verif -overlay "$HERE/.scratch/pb-setup/overlay.json" -o "$HERE/.build/" ./cmd/... ) || echo "WARNING: some engines did not build"
 rm -rf "$HERE/.scratch/pb-setup"
 echo setup done
